@@ -135,6 +135,10 @@ func runC17(c *Ctx) {
 			if tr == 4 && len(sc.Events) > 0 {
 				sc.ToggleOn = 1 + r.Intn(len(sc.Events))
 			}
+			if tr == 3 && len(sc.Events) > 2 && r.Intn(2) == 0 {
+				// tracked, switched off after the first event, and on again later (whatever happened in between)
+				sc.ToggleOn = 2 + r.Intn(len(sc.Events)-1)
+			}
 			if !c17Run(c, "prng", idx, sc) {
 				return
 			}
